@@ -110,7 +110,337 @@ pub fn c08_internal_pointer(s: &mut Src) {
     cov!(s, "unaligned pointer", off % 8 != 0);
 }
 
+
+// ---------------------------------------------------------------------------------------------
+// Large object space: the page-wise search of `LargeObjectSpace::find_object_from_internal_pointer`
+// (driven through the `los_find_object_from_internal_pointer` hook; the method reads no field of
+// the space).  Heap: three pages above three always-empty guard pages; up to two page-aligned
+// large objects (VmB: the reference is 8 bytes after the object start).
+//
+// The page layout (which pages start an object: 7 layouts) and the page the pointer lies in (3) are
+// *concrete*: the harness body runs the 21 configurations one after the other, each with fresh
+// symbolic object sizes, pointer offset inside its page and search limit.  With a symbolic layout
+// the 512-iteration byte loop that locates the VO bit inside a page cannot be cut by constant
+// propagation and symbolic execution slows down quadratically (521 iterations in 1500 s).
+
+use mmtk::verif_export::policy::los_find_object_from_internal_pointer;
+
+const GUARD: usize = 3;
+const LPAGES: usize = 3;
+const TPAGES: usize = GUARD + LPAGES;
+const PAGE: usize = 4096;
+const REF_OFF: usize = 8;
+const HEAP: usize = DATA_BASE + GUARD * PAGE;
+
+/// E2 window for the LOS harnesses: the first VO-bit word of each of the six pages (the search
+/// only ever reads that word: `load_raw_word` of the page start and `is_vo_addr` of the first 512
+/// bytes).  Under Kani plain loads are redirected here (typed array, concrete index); natively the
+/// real loads read `LBUF`, a real buffer with the table's layout (64 bytes per page).
+pub static mut LW: [u64; TPAGES] = [0; TPAGES];
+#[repr(C, align(64))]
+pub struct LBuf(pub [u8; TPAGES * 64]);
+pub static mut LBUF: LBuf = LBuf([0; TPAGES * 64]);
+
+fn lwin_base() -> usize {
+    #[cfg(kani)]
+    {
+        0x6100_0000_0000
+    }
+    #[cfg(not(kani))]
+    {
+        unsafe { LBUF.0.as_ptr() as usize }
+    }
+}
+
+#[cfg(kani)]
+pub unsafe fn stub_los_load<T: Copy>(a: Address) -> T {
+    let off = a.as_usize().wrapping_sub(lwin_base());
+    let page = off / 64;
+    let within = off % 64;
+    let size = core::mem::size_of::<T>();
+    kani::assert(page < TPAGES && within + size <= 8, "load outside the first VO-bit word of a page");
+    let w: u64 = LW[page] >> (8 * within);
+    if size == 8 {
+        core::mem::transmute_copy::<u64, T>(&w)
+    } else {
+        kani::assert(size == 1, "only word and byte loads are made");
+        let b: u8 = w as u8;
+        core::mem::transmute_copy::<u8, T>(&b)
+    }
+}
+#[cfg(not(kani))]
+pub unsafe fn stub_los_load<T: Copy>(a: Address) -> T {
+    a.load::<T>()
+}
+
+struct LHeap {
+    p1: bool,
+    st1: usize,
+    s1: usize,
+    p2: bool,
+    st2: usize,
+    s2: usize,
+}
+
+/// Layouts: page (0..3, relative to the heap) of the first and of the second object.
+const LAYOUTS: [(Option<usize>, Option<usize>); 7] = [(None, None), (Some(0), None), (Some(1), None), (Some(2), None), (Some(0), Some(1)), (Some(0), Some(2)), (Some(1), Some(2))];
+
+fn los_setup(s: &mut Src, layout: usize) -> LHeap {
+    let (a, b) = LAYOUTS[layout];
+    let s1 = s.any_in(16, LPAGES * PAGE);
+    let s2 = s.any_in(16, LPAGES * PAGE);
+    s.assume(s1 % 8 == 0 && s2 % 8 == 0);
+    // large objects own whole pages and do not overlap; the first one is the lower one
+    let end1 = match b {
+        Some(b) => b * PAGE,
+        None => LPAGES * PAGE,
+    };
+    if let Some(a) = a {
+        s.assume(a * PAGE + s1 <= end1);
+    }
+    if let Some(b) = b {
+        s.assume(b * PAGE + s2 <= LPAGES * PAGE);
+    }
+    unsafe {
+        LW = [0; TPAGES];
+        #[cfg(not(kani))]
+        {
+            LBUF.0 = [0; TPAGES * 64];
+        }
+        let mut k = 0;
+        while k < LPAGES {
+            if a == Some(k) || b == Some(k) {
+                LW[GUARD + k] = 1 << (REF_OFF / 8);
+                #[cfg(not(kani))]
+                {
+                    LBUF.0[(GUARD + k) * 64] = 1 << (REF_OFF / 8);
+                }
+            }
+            k += 1;
+        }
+    }
+    let meta_base = lwin_base();
+    set_side_base(meta_base - VO_BIT.offset - (DATA_BASE >> 6));
+    let st1 = HEAP + a.unwrap_or(0) * PAGE;
+    let st2 = HEAP + b.unwrap_or(0) * PAGE;
+    unsafe {
+        MAPPED[0] = (DATA_BASE, DATA_BASE + TPAGES * PAGE);
+        MAPPED[1] = (meta_base, meta_base + TPAGES * 64);
+        crate::vm::OBJ_TABLE[0] = if a.is_some() { (st1 + REF_OFF, s1) } else { (0, 0) };
+        crate::vm::OBJ_TABLE[1] = if b.is_some() { (st2 + REF_OFF, s2) } else { (0, 0) };
+    }
+    LHeap { p1: a.is_some(), st1, s1, p2: b.is_some(), st2, s2 }
+}
+
+struct LQuery {
+    p: usize,
+    n: usize,
+    got: Option<usize>,
+    ref1: usize,
+    ref2: usize,
+    in1: bool,
+    in2: bool,
+}
+
+/// Pointer offsets inside its page (concrete: a symbolic offset makes `ptr.align_down(PAGE)`, and
+/// with it every page address and every VO-bit load of the search, symbolic): page start (object
+/// start, below the reference), the reference itself, just above it, last byte of the page.
+const OFFSETS: [usize; 4] = [0, 8, 9, 4095];
+
+fn los_query(s: &mut Src, h: &LHeap, ptr_page: usize, off: usize) -> LQuery {
+    let n = s.any_in(1, LPAGES * PAGE); // at most three pages: the search ends in the guard pages
+    let p = HEAP + ptr_page * PAGE + off;
+    let got = los_find_object_from_internal_pointer::<VmB>(unsafe { Address::from_usize(p) }, n).map(|o| o.to_raw_address().as_usize());
+    LQuery { p, n, got, ref1: h.st1 + REF_OFF, ref2: h.st2 + REF_OFF, in1: h.p1 && p >= h.st1 && p < h.st1 + h.s1, in2: h.p2 && p >= h.st2 && p < h.st2 + h.s2 }
+}
+
+/// What every caller relies on: an interior pointer (at or above the reference, inside the
+/// allocation, reference less than `n` bytes below) resolves to its object; whatever is returned is
+/// the object whose allocation holds the pointer; pointers outside every allocation resolve to
+/// nothing.  One harness per (layout, pointer page); the six pointer offsets run in sequence.
+fn los_ip(s: &mut Src, layout: usize, ptr_page: usize) {
+    install_mmapper();
+    let mut oi = 0;
+    let mut found = false;
+    let mut too_far = false;
+    let mut outside = false;
+    while oi < OFFSETS.len() {
+        let h = los_setup(s, layout);
+        let q = los_query(s, &h, ptr_page, OFFSETS[oi]);
+        let must1 = q.in1 && q.p >= q.ref1 && q.p - q.ref1 < q.n;
+        let must2 = q.in2 && q.p >= q.ref2 && q.p - q.ref2 < q.n;
+        chk!(s, "LOS: an interior pointer within the search limit resolves to its object", (!must1 || q.got == Some(q.ref1)) && (!must2 || q.got == Some(q.ref2)));
+        chk!(s, "LOS: a returned object is the one whose allocation holds the pointer", match q.got {
+            None => true,
+            Some(x) => (q.in1 && x == q.ref1) || (q.in2 && x == q.ref2),
+        });
+        chk!(s, "LOS: a pointer outside every allocation resolves to nothing", q.in1 || q.in2 || q.got.is_none());
+        found |= must1 || must2;
+        too_far |= (q.in1 || q.in2) && q.got.is_none();
+        outside |= !q.in1 && !q.in2;
+        oi += 1;
+    }
+    // reachability witnesses (trivially satisfied where the configuration does not admit them)
+    let (a, b) = LAYOUTS[layout];
+    let has_obj_at_or_below = matches!(a, Some(x) if x <= ptr_page) || matches!(b, Some(x) if x <= ptr_page);
+    let single_below = b.is_none() && matches!(a, Some(x) if x < ptr_page);
+    cov!(s, "LOS: an interior pointer is resolved", !has_obj_at_or_below || found);
+    cov!(s, "LOS: object reference too far below for the limit, lower pages not searched", !single_below || too_far);
+    cov!(s, "LOS: pointer outside every allocation", outside);
+}
+
+/// Unmapped heap: nothing is found (one configuration).
+pub fn c08_los_unmapped(s: &mut Src) {
+    install_mmapper();
+    let h = los_setup(s, 1);
+    unsafe {
+        MAPPED[0] = (0, 0);
+    }
+    let q = los_query(s, &h, 0, 9);
+    chk!(s, "LOS: nothing is found in unmapped memory", q.got.is_none());
+    cov!(s, "LOS: pointer into the object, unmapped", q.in1);
+}
+
+/// The letter of the property (and of the API documentation), part 1: only pointers at or above
+/// the reference are interior pointers.
+fn los_strict_header(s: &mut Src, layout: usize, ptr_page: usize) {
+    install_mmapper();
+    let mut oi = 0;
+    let mut found = false;
+    while oi < OFFSETS.len() {
+        let h = los_setup(s, layout);
+        let q = los_query(s, &h, ptr_page, OFFSETS[oi]);
+        chk!(s, "LOS: a pointer below the object reference (in the header) resolves to nothing", match q.got {
+            None => true,
+            Some(x) => x <= q.p,
+        });
+        found |= q.got.is_some();
+        oi += 1;
+    }
+    cov!(s, "LOS strict: object found", found);
+}
+/// Part 2: `p - n` is not searched, i.e. an object whose reference is `n` or more bytes below the
+/// pointer is not returned.
+fn los_strict_limit(s: &mut Src, layout: usize, ptr_page: usize) {
+    install_mmapper();
+    let mut oi = 0;
+    let mut found = false;
+    while oi < OFFSETS.len() {
+        let h = los_setup(s, layout);
+        let q = los_query(s, &h, ptr_page, OFFSETS[oi]);
+        chk!(s, "LOS: an object whose reference is n or more bytes below the pointer is not returned", match q.got {
+            None => true,
+            Some(x) => x > q.p || q.p - x < q.n,
+        });
+        found |= q.got.is_some();
+        oi += 1;
+    }
+    cov!(s, "LOS strict: object found", found);
+}
+pub fn c08_los_strict_header_l1p0(s: &mut Src) {
+    los_strict_header(s, 1, 0)
+}
+pub fn c08_los_strict_header_l4p1(s: &mut Src) {
+    los_strict_header(s, 4, 1)
+}
+pub fn c08_los_strict_limit_l1p0(s: &mut Src) {
+    los_strict_limit(s, 1, 0)
+}
+pub fn c08_los_strict_limit_l1p1(s: &mut Src) {
+    los_strict_limit(s, 1, 1)
+}
+
+pub fn c08_los_ip_l0p0(s: &mut Src) {
+    los_ip(s, 0, 0)
+}
+pub fn c08_los_ip_l0p1(s: &mut Src) {
+    los_ip(s, 0, 1)
+}
+pub fn c08_los_ip_l0p2(s: &mut Src) {
+    los_ip(s, 0, 2)
+}
+pub fn c08_los_ip_l1p0(s: &mut Src) {
+    los_ip(s, 1, 0)
+}
+pub fn c08_los_ip_l1p1(s: &mut Src) {
+    los_ip(s, 1, 1)
+}
+pub fn c08_los_ip_l1p2(s: &mut Src) {
+    los_ip(s, 1, 2)
+}
+pub fn c08_los_ip_l2p0(s: &mut Src) {
+    los_ip(s, 2, 0)
+}
+pub fn c08_los_ip_l2p1(s: &mut Src) {
+    los_ip(s, 2, 1)
+}
+pub fn c08_los_ip_l2p2(s: &mut Src) {
+    los_ip(s, 2, 2)
+}
+pub fn c08_los_ip_l3p0(s: &mut Src) {
+    los_ip(s, 3, 0)
+}
+pub fn c08_los_ip_l3p1(s: &mut Src) {
+    los_ip(s, 3, 1)
+}
+pub fn c08_los_ip_l3p2(s: &mut Src) {
+    los_ip(s, 3, 2)
+}
+pub fn c08_los_ip_l4p0(s: &mut Src) {
+    los_ip(s, 4, 0)
+}
+pub fn c08_los_ip_l4p1(s: &mut Src) {
+    los_ip(s, 4, 1)
+}
+pub fn c08_los_ip_l4p2(s: &mut Src) {
+    los_ip(s, 4, 2)
+}
+pub fn c08_los_ip_l5p0(s: &mut Src) {
+    los_ip(s, 5, 0)
+}
+pub fn c08_los_ip_l5p1(s: &mut Src) {
+    los_ip(s, 5, 1)
+}
+pub fn c08_los_ip_l5p2(s: &mut Src) {
+    los_ip(s, 5, 2)
+}
+pub fn c08_los_ip_l6p0(s: &mut Src) {
+    los_ip(s, 6, 0)
+}
+pub fn c08_los_ip_l6p1(s: &mut Src) {
+    los_ip(s, 6, 1)
+}
+pub fn c08_los_ip_l6p2(s: &mut Src) {
+    los_ip(s, 6, 2)
+}
+
 harnesses! {
     #[kani::unwind(26)] #[kani::stub(alloc::fmt::format, crate::env::stub_format)] c08_is_object; // features=vo_bit timeout=900
     #[kani::unwind(26)] #[kani::stub(alloc::fmt::format, crate::env::stub_format)] #[kani::stub(mmtk::util::Address::load, crate::env::stub_addr_load)] #[kani::stub(mmtk::util::Address::is_mapped, crate::env::stub_is_mapped)] c08_internal_pointer; // features=vo_bit timeout=900 loops=in_metadata_bytes:5
+    #[kani::unwind(10)] #[kani::stub(alloc::fmt::format, crate::env::stub_format)] #[kani::stub(mmtk::util::Address::load, crate::c08_vobit::stub_los_load)] #[kani::stub(mmtk::util::Address::is_mapped, crate::env::stub_is_mapped)] c08_los_unmapped; // features=vo_bit timeout=900
+    #[kani::unwind(10)] #[kani::stub(alloc::fmt::format, crate::env::stub_format)] #[kani::stub(mmtk::util::Address::load, crate::c08_vobit::stub_los_load)] #[kani::stub(mmtk::util::Address::is_mapped, crate::env::stub_is_mapped)] c08_los_ip_l0p0; // features=vo_bit timeout=600
+    #[kani::unwind(10)] #[kani::stub(alloc::fmt::format, crate::env::stub_format)] #[kani::stub(mmtk::util::Address::load, crate::c08_vobit::stub_los_load)] #[kani::stub(mmtk::util::Address::is_mapped, crate::env::stub_is_mapped)] c08_los_ip_l0p1; // features=vo_bit timeout=600
+    #[kani::unwind(10)] #[kani::stub(alloc::fmt::format, crate::env::stub_format)] #[kani::stub(mmtk::util::Address::load, crate::c08_vobit::stub_los_load)] #[kani::stub(mmtk::util::Address::is_mapped, crate::env::stub_is_mapped)] c08_los_ip_l0p2; // features=vo_bit timeout=600
+    #[kani::unwind(10)] #[kani::stub(alloc::fmt::format, crate::env::stub_format)] #[kani::stub(mmtk::util::Address::load, crate::c08_vobit::stub_los_load)] #[kani::stub(mmtk::util::Address::is_mapped, crate::env::stub_is_mapped)] c08_los_ip_l1p0; // features=vo_bit timeout=600
+    #[kani::unwind(10)] #[kani::stub(alloc::fmt::format, crate::env::stub_format)] #[kani::stub(mmtk::util::Address::load, crate::c08_vobit::stub_los_load)] #[kani::stub(mmtk::util::Address::is_mapped, crate::env::stub_is_mapped)] c08_los_ip_l1p1; // features=vo_bit timeout=600
+    #[kani::unwind(10)] #[kani::stub(alloc::fmt::format, crate::env::stub_format)] #[kani::stub(mmtk::util::Address::load, crate::c08_vobit::stub_los_load)] #[kani::stub(mmtk::util::Address::is_mapped, crate::env::stub_is_mapped)] c08_los_ip_l1p2; // features=vo_bit timeout=600
+    #[kani::unwind(10)] #[kani::stub(alloc::fmt::format, crate::env::stub_format)] #[kani::stub(mmtk::util::Address::load, crate::c08_vobit::stub_los_load)] #[kani::stub(mmtk::util::Address::is_mapped, crate::env::stub_is_mapped)] c08_los_ip_l2p0; // features=vo_bit timeout=600
+    #[kani::unwind(10)] #[kani::stub(alloc::fmt::format, crate::env::stub_format)] #[kani::stub(mmtk::util::Address::load, crate::c08_vobit::stub_los_load)] #[kani::stub(mmtk::util::Address::is_mapped, crate::env::stub_is_mapped)] c08_los_ip_l2p1; // features=vo_bit timeout=600
+    #[kani::unwind(10)] #[kani::stub(alloc::fmt::format, crate::env::stub_format)] #[kani::stub(mmtk::util::Address::load, crate::c08_vobit::stub_los_load)] #[kani::stub(mmtk::util::Address::is_mapped, crate::env::stub_is_mapped)] c08_los_ip_l2p2; // features=vo_bit timeout=600
+    #[kani::unwind(10)] #[kani::stub(alloc::fmt::format, crate::env::stub_format)] #[kani::stub(mmtk::util::Address::load, crate::c08_vobit::stub_los_load)] #[kani::stub(mmtk::util::Address::is_mapped, crate::env::stub_is_mapped)] c08_los_ip_l3p0; // features=vo_bit timeout=600
+    #[kani::unwind(10)] #[kani::stub(alloc::fmt::format, crate::env::stub_format)] #[kani::stub(mmtk::util::Address::load, crate::c08_vobit::stub_los_load)] #[kani::stub(mmtk::util::Address::is_mapped, crate::env::stub_is_mapped)] c08_los_ip_l3p1; // features=vo_bit timeout=600
+    #[kani::unwind(10)] #[kani::stub(alloc::fmt::format, crate::env::stub_format)] #[kani::stub(mmtk::util::Address::load, crate::c08_vobit::stub_los_load)] #[kani::stub(mmtk::util::Address::is_mapped, crate::env::stub_is_mapped)] c08_los_ip_l3p2; // features=vo_bit timeout=600
+    #[kani::unwind(10)] #[kani::stub(alloc::fmt::format, crate::env::stub_format)] #[kani::stub(mmtk::util::Address::load, crate::c08_vobit::stub_los_load)] #[kani::stub(mmtk::util::Address::is_mapped, crate::env::stub_is_mapped)] c08_los_ip_l4p0; // features=vo_bit timeout=600
+    #[kani::unwind(10)] #[kani::stub(alloc::fmt::format, crate::env::stub_format)] #[kani::stub(mmtk::util::Address::load, crate::c08_vobit::stub_los_load)] #[kani::stub(mmtk::util::Address::is_mapped, crate::env::stub_is_mapped)] c08_los_ip_l4p1; // features=vo_bit timeout=600
+    #[kani::unwind(10)] #[kani::stub(alloc::fmt::format, crate::env::stub_format)] #[kani::stub(mmtk::util::Address::load, crate::c08_vobit::stub_los_load)] #[kani::stub(mmtk::util::Address::is_mapped, crate::env::stub_is_mapped)] c08_los_ip_l4p2; // features=vo_bit timeout=600
+    #[kani::unwind(10)] #[kani::stub(alloc::fmt::format, crate::env::stub_format)] #[kani::stub(mmtk::util::Address::load, crate::c08_vobit::stub_los_load)] #[kani::stub(mmtk::util::Address::is_mapped, crate::env::stub_is_mapped)] c08_los_ip_l5p0; // features=vo_bit timeout=600
+    #[kani::unwind(10)] #[kani::stub(alloc::fmt::format, crate::env::stub_format)] #[kani::stub(mmtk::util::Address::load, crate::c08_vobit::stub_los_load)] #[kani::stub(mmtk::util::Address::is_mapped, crate::env::stub_is_mapped)] c08_los_ip_l5p1; // features=vo_bit timeout=600
+    #[kani::unwind(10)] #[kani::stub(alloc::fmt::format, crate::env::stub_format)] #[kani::stub(mmtk::util::Address::load, crate::c08_vobit::stub_los_load)] #[kani::stub(mmtk::util::Address::is_mapped, crate::env::stub_is_mapped)] c08_los_ip_l5p2; // features=vo_bit timeout=600
+    #[kani::unwind(10)] #[kani::stub(alloc::fmt::format, crate::env::stub_format)] #[kani::stub(mmtk::util::Address::load, crate::c08_vobit::stub_los_load)] #[kani::stub(mmtk::util::Address::is_mapped, crate::env::stub_is_mapped)] c08_los_ip_l6p0; // features=vo_bit timeout=600
+    #[kani::unwind(10)] #[kani::stub(alloc::fmt::format, crate::env::stub_format)] #[kani::stub(mmtk::util::Address::load, crate::c08_vobit::stub_los_load)] #[kani::stub(mmtk::util::Address::is_mapped, crate::env::stub_is_mapped)] c08_los_ip_l6p1; // features=vo_bit timeout=600
+    #[kani::unwind(10)] #[kani::stub(alloc::fmt::format, crate::env::stub_format)] #[kani::stub(mmtk::util::Address::load, crate::c08_vobit::stub_los_load)] #[kani::stub(mmtk::util::Address::is_mapped, crate::env::stub_is_mapped)] c08_los_ip_l6p2; // features=vo_bit timeout=600
+    #[kani::unwind(10)] #[kani::stub(alloc::fmt::format, crate::env::stub_format)] #[kani::stub(mmtk::util::Address::load, crate::c08_vobit::stub_los_load)] #[kani::stub(mmtk::util::Address::is_mapped, crate::env::stub_is_mapped)] c08_los_strict_header_l1p0; // features=vo_bit timeout=600
+    #[kani::unwind(10)] #[kani::stub(alloc::fmt::format, crate::env::stub_format)] #[kani::stub(mmtk::util::Address::load, crate::c08_vobit::stub_los_load)] #[kani::stub(mmtk::util::Address::is_mapped, crate::env::stub_is_mapped)] c08_los_strict_header_l4p1; // features=vo_bit timeout=600
+    #[kani::unwind(10)] #[kani::stub(alloc::fmt::format, crate::env::stub_format)] #[kani::stub(mmtk::util::Address::load, crate::c08_vobit::stub_los_load)] #[kani::stub(mmtk::util::Address::is_mapped, crate::env::stub_is_mapped)] c08_los_strict_limit_l1p0; // features=vo_bit timeout=600
+    #[kani::unwind(10)] #[kani::stub(alloc::fmt::format, crate::env::stub_format)] #[kani::stub(mmtk::util::Address::load, crate::c08_vobit::stub_los_load)] #[kani::stub(mmtk::util::Address::is_mapped, crate::env::stub_is_mapped)] c08_los_strict_limit_l1p1; // features=vo_bit timeout=600
 }
